@@ -196,6 +196,7 @@ func c04Body(c *ev.Ctx) {
 		}
 	}
 	runCases(r, "KeccakGadget compiled to R1CS, evaluated by the independent evaluator (boundary lengths)", cases, c04Eval)
+	runPairIsolation(c, c04Pairs(quick))
 	r.finish("C04")
 	c.Set("distinct_nontrivial", int64(len(distinct)))
 	c.Set("message_lengths", int64(len(lengths)))
